@@ -312,18 +312,28 @@ def run(prop, tier, seed, replay=None):
     rep.extra["type_argument_cases"] = len([c for c in tres if "skip" not in c])
     cases = list(merged.values())
     verdicts = {}
-    B = 1500
-    for k in range(0, len(cases), B):
-        batch = []
-        for c in cases[k : k + B]:
-            sc = static.strip_obs(c)
-            for st, so in zip(c["steps"], sc["steps"]):
-                so["methods"] = st["methods"]
-                so["ctx"] = st["ctx"]
-            batch.append(sc)
-        v, res = tlc.judge("Trace_Resolve", batch)
-        rep.add_tlc(res, f"judge Trace_Resolve (C06Clause) batch {k // B}")
-        verdicts.update(v)
+    # batches are cut by size (every step of a case carries its own method set): TLC parses one JSON document per batch
+    batch, size, nb = [], 0, 0
+
+    def flush():
+        nonlocal batch, size, nb
+        if batch:
+            v, res = tlc.judge("Trace_Resolve", batch)
+            rep.add_tlc(res, f"judge Trace_Resolve (C06Clause) batch {nb}")
+            verdicts.update(v)
+            nb += 1
+        batch, size = [], 0
+
+    for c in cases:
+        sc = static.strip_obs(c)
+        for st, so in zip(c["steps"], sc["steps"]):
+            so["methods"] = st["methods"]
+            so["ctx"] = st["ctx"]
+        batch.append(sc)
+        size += len(json.dumps(sc))
+        if size > 5_000_000 or len(batch) >= 1500:
+            flush()
+    flush()
     rep.judged = len(verdicts)
     ndrift = 0
     for cid, v in verdicts.items():
